@@ -10,10 +10,11 @@ i.e. the allocation is bounded by a constant or by the input.  Functions under c
 class that contain a repetition of a list display by a non-constant count.
 
 * a method whose count is a PARAMETER (`_read_boolean_vector(self, count, ..)`) is verified under `requires count <= max(REPEAT_CAP, header
-  size)`.  The machinery to check that requirement at call sites is here (`call-pre#..`; an argument that is a size of an existing
-  object -- `len(stream_less)`, `C12.size_only` on the real AST -- meets it by the round-5 rule), but in round 7 NO call site is reached
-  by it: the property loop of `_parse_files_info` is cut without its body being executed, and the other callers
-  (`not_checked_call_sites`) are not under contract.  The requirement is therefore reported as ASSUMED in the evidence.
+  size)`; the requirement is an obligation (`call-pre#..`) at every call site inside the methods under contract here (the loop cut keeps
+  the object and its stream binding: `AmpExecutor.havoc_loop_state`).  A call site whose argument is a size of an object that already
+  exists (`len(stream_less)`: `C12.size_only` on the real AST) meets it by the round-5 rule (the repetition allocates at most what the
+  data already occupies).  Call sites in methods that are NOT under contract (`not_checked_call_sites`, reported in the evidence as
+  assumed) are not covered.
 * model of the rest of the class, read off the real AST (no contract assumed about values): a call `self.m(..)` of a method of the same
   class returns an arbitrary value -- an arbitrary INTEGER tagged as decoded from the input when `m` is annotated `-> int` --, may raise
   anything, moves the stream position to an arbitrary place and leaves the binding of the stream attribute alone when neither `m` nor
